@@ -630,3 +630,17 @@ fn c13_constexpr_cast_nodes_compose_bounded() {
     check(r, e, None, false);
     kani::cover!(true);
 }
+
+// sizing probes (not registered)
+#[kani::proof]
+#[kani::unwind(12)]
+fn probe_cast_world_only() {
+    let w = cast_world();
+    let r = leak(evaluate_cast(w.ty[1], ir::Constant::Int32(kani::any()), w.m));
+    assert!(r.is_ok());
+}
+#[kani::proof]
+#[kani::unwind(12)]
+fn probe_cast_int_sources_to_int() {
+    cast_harness(1, &[K_BOOL, K_I32, K_U32]);
+}
